@@ -43,10 +43,11 @@ def _norm(m: dict[str, int]) -> Mono:
 
 
 class Poly:
-    __slots__ = ("terms",)
+    __slots__ = ("terms", "tree")
 
     def __init__(self, terms: dict[Mono, Fraction] | None = None):
         self.terms = {m: c for m, c in (terms or {}).items() if c != 0}
+        self.tree = None  # optional: the expression tree the form was folded from (floating-point order of evaluation)
 
     @staticmethod
     def const(c) -> "Poly":
@@ -204,13 +205,27 @@ def proves(p: Poly, rel: str, signs: dict[str, str], facts: Iterable[tuple[Poly,
     if s in table[rel]:
         return True
     weaker = {"> 0": {"> 0"}, ">= 0": {"> 0", ">= 0", "= 0"}, "< 0": {"< 0"}, "<= 0": {"< 0", "<= 0", "= 0"}, "= 0": {"= 0"}}
+    flip = {"> 0": "< 0", ">= 0": "<= 0", "< 0": "> 0", "<= 0": ">= 0", "= 0": "= 0"}
     for q, r in facts:
         if q == p and r in weaker[rel]:
             return True
-        if q == -p:
-            flipped = {"> 0": "< 0", ">= 0": "<= 0", "< 0": "> 0", "<= 0": ">= 0", "= 0": "= 0"}[r]
-            if flipped in weaker[rel]:
-                return True
+        if q == -p and flip.get(r) in weaker[rel]:
+            return True
+    # one path fact plus a remainder of known sign:  p = k*q + rest  (k > 0)
+    for q0, r0 in facts:
+        if r0 not in flip:
+            continue
+        for q, r in ((q0, r0), (-q0, flip[r0])):
+            for k in (Fraction(1), Fraction(1, 2), Fraction(2)):
+                rest = sign(p - q * Poly.const(k), signs)
+                if rel in ("> 0", ">= 0") and r in ("> 0", ">= 0", "= 0") and rest in (POS, NONNEG, ZERO):
+                    strict = (r == "> 0") or rest == POS
+                    if rel == ">= 0" or strict:
+                        return True
+                if rel in ("< 0", "<= 0") and r in ("< 0", "<= 0", "= 0") and rest in (NEG, NONPOS, ZERO):
+                    strict = (r == "< 0") or rest == NEG
+                    if rel == "<= 0" or strict:
+                        return True
     return False
 
 
